@@ -91,7 +91,10 @@ impl Out {
 /// Run `f` catching panics; returns Err(location-or-message) on panic.
 pub fn guarded<T>(f: impl FnOnce() -> T) -> Result<T, String> {
     LAST_PANIC.with(|p| *p.borrow_mut() = None);
-    match std::panic::catch_unwind(std::panic::AssertUnwindSafe(f)) {
+    let was = IN_GUARD.with(|g| g.replace(true));
+    let r = std::panic::catch_unwind(std::panic::AssertUnwindSafe(f));
+    IN_GUARD.with(|g| g.set(was));
+    match r {
         Ok(v) => Ok(v),
         Err(payload) => {
             let msg = if let Some(s) = payload.downcast_ref::<&str>() {
@@ -108,6 +111,7 @@ pub fn guarded<T>(f: impl FnOnce() -> T) -> Result<T, String> {
 }
 thread_local! {
     pub static LAST_PANIC: std::cell::RefCell<Option<String>> = const { std::cell::RefCell::new(None) };
+    static IN_GUARD: std::cell::Cell<bool> = const { std::cell::Cell::new(false) };
 }
 pub fn install_panic_hook() {
     std::panic::set_hook(Box::new(|info| {
@@ -132,6 +136,8 @@ pub fn install_panic_hook() {
                 }
             }
         }
+        // a panic of the harness itself (outside `guarded`) must not die silently
+        if !IN_GUARD.with(|g| g.get()) { eprintln!("harness panic at {loc}: {info}"); }
         LAST_PANIC.with(|p| *p.borrow_mut() = Some(loc));
     }));
 }
@@ -153,6 +159,7 @@ pub fn par_map<J: Sync, R: Send>(jobs: &[J], threads: usize, f: impl Fn(usize, &
                     let i = next.fetch_add(1, std::sync::atomic::Ordering::SeqCst);
                     if i >= n { break; }
                     let r = f(i, &jobs[i]);
+                    watch_done();
                     results.lock().unwrap()[i] = Some(r);
                 }
             });
@@ -195,4 +202,28 @@ pub fn metered<T>(f: impl FnOnce() -> T) -> (T, u64, u64) {
     let r = f();
     let peak = M_PEAK.with(|p| p.get()).saturating_sub(base);
     (r, peak as u64, M_MAXREQ.with(|m| m.get()) as u64)
+}
+
+
+// ------------------------------------------------------------------------------------------------
+// Watchdog: a call into the code under test that does not return cannot be interrupted; it is reported and the
+// process exits with status 3 (the check turns that into a finding for C17 and into a tool error elsewhere).
+static WATCH: std::sync::Mutex<Vec<(std::thread::ThreadId, String, std::time::Instant)>> = std::sync::Mutex::new(Vec::new());
+/// Mark the start of a case on this thread (replaces the previous one).
+pub fn watch(label: String) {
+    let id = std::thread::current().id();
+    let mut w = WATCH.lock().unwrap();
+    w.retain(|e| e.0 != id);
+    w.push((id, label, std::time::Instant::now()));
+}
+pub fn watch_done() { let id = std::thread::current().id(); WATCH.lock().unwrap().retain(|e| e.0 != id); }
+pub fn start_watchdog(limit_s: u64) {
+    std::thread::spawn(move || loop {
+        std::thread::sleep(std::time::Duration::from_millis(500));
+        let late: Option<String> = WATCH.lock().unwrap().iter().find(|e| e.2.elapsed().as_secs() >= limit_s).map(|e| e.1.clone());
+        if let Some(l) = late {
+            eprintln!("WATCHDOG-TIMEOUT after {limit_s}s: {l}");
+            std::process::exit(3);
+        }
+    });
 }
